@@ -31,7 +31,7 @@ Definition op_ok (o : operand) : Prop :=
   | Register r => 0 <= r < 2 ^ 63
   | Integer v => - 2 ^ 63 <= v < 2 ^ 63
   | Memory r f => 0 <= r < 2 ^ 63 /\ - 2 ^ 63 <= f < 2 ^ 63
-  | Nil => True
+  | Nil => False        (* the parser never returns the padding value *)
   end.
 
 Lemma norm_i64_range x : - 2 ^ 63 <= norm I64 x < 2 ^ 63.
